@@ -86,8 +86,7 @@ func brokerGrouping(batch *metric.BrokerBatchRows, numShards int32, interval int
 	return out
 }
 
-func checkBrokerGroups(e *childEnv, interval int64, ts []int64, groups []brokerGroup) {
-	r := e.rec
+func checkBrokerGroups(e *childEnv, r obs, ntPart string, interval int64, ts []int64, groups []brokerGroup) {
 	cal := e.cal
 	typ := typeOf(interval)
 	want := map[int64]int{}
@@ -116,7 +115,7 @@ func checkBrokerGroups(e *childEnv, interval int64, ts []int64, groups []brokerG
 					e.wit("interval", interval, "ts", t, "groupFamilyTime", g.FamilyTime, "oracle", b, "batch", ts))
 			}
 			if k := boundaryKind(b, t); k != "" {
-				r.Nontrivial(e.tz + "|broker|" + typ + "|" + b.SegName + "|" + k)
+				r.Nontrivial(e.tz + "|" + ntPart + "|" + typ + "|" + b.SegName + "|" + k)
 				r.Count("broker/"+typ+"/rows_at_boundary", 1)
 			}
 		}
@@ -175,7 +174,7 @@ func runBroker(e *childEnv) {
 			ivs := intervalsByType[typ]
 			iv := ivs[rnd.Intn(len(ivs))]
 			groups := brokerGrouping(batch, numShards, iv)
-			checkBrokerGroups(e, iv, ts, groups)
+			checkBrokerGroups(e, e.rec, "broker", iv, ts, groups)
 		}
 		if bi == 0 {
 			r.Sample(map[string]interface{}{"part": "broker", "tz": e.tz, "batch": ts})
